@@ -22,7 +22,11 @@
 //   - fields the manifest does not specify (foreign labels/fields added out of band may stay or go);
 //   - ops that failed, and ops during which the server rejected a request (injected fault);
 //   - custom kinds (example.com Widget/Gadget) receive no out-of-band edits of manifest-specified
-//     fields: helm documents a two-way merge for unstructured objects;
+//     fields: helm documents a two-way merge (old manifest -> new manifest) for unstructured
+//     objects. For the same reason a custom object that existed before the op is only judged when
+//     it then carried every field of its document in the deployed revision's manifest; objects
+//     left over from an earlier release or changed by an earlier failed op are skipped (counted as
+//     custom_objects_skipped_diverged_before_op);
 //   - at uninstall, a resource whose manifest has no keep policy but whose live object was given
 //     one out of band: either outcome is accepted; for keep-policy resources that were already
 //     absent before the uninstall nothing is demanded;
@@ -74,7 +78,7 @@ type caseData struct {
 func genCases(seed int64, tier string) []core.Case {
 	n := 480
 	if tier == "thorough" {
-		n = 9000
+		n = 6000
 	}
 	rng := rand.New(rand.NewSource(seed*104729 + 2))
 	var out []core.Case
@@ -125,9 +129,28 @@ func opClass(op env.Op) string {
 	return s
 }
 
+// driftClass reduces the out-of-band edits an object received since the last successful op to
+// one of four cause shapes (for violation classes).
 func driftClass(kinds []string) string {
+	has := map[string]bool{}
+	for _, k := range kinds {
+		has[k] = true
+	}
+	switch {
+	case has["delete"]:
+		return "object deleted out of band"
+	case has["field"] || has["field-remove"] || has["keep-add"] || has["keep-remove"]:
+		return "manifest-specified field or policy annotation edited out of band"
+	case has["foreign"]:
+		return "only foreign fields added out of band"
+	}
+	return "no out-of-band edit"
+}
+
+// driftShape lists the distinct drift kinds (for shape keys).
+func driftShape(kinds []string) string {
 	if len(kinds) == 0 {
-		return "no out-of-band edit"
+		return "no-drift"
 	}
 	set := map[string]bool{}
 	for _, k := range kinds {
@@ -138,7 +161,7 @@ func driftClass(kinds []string) string {
 		u = append(u, k)
 	}
 	sort.Strings(u)
-	return "out-of-band " + strings.Join(u, "+")
+	return strings.Join(u, "+")
 }
 
 func lastStatus(recs []env.Rec) string {
@@ -331,9 +354,9 @@ func judgeApply(res *core.Result, o *gen.StepObs, detail func() string, verbose 
 			res.Stat("stale_resources_checked", 1)
 			pol, _ := ref.LiveAnnotation(before, ref.PolicyAnno)
 			_, present := o.S1[d.Key]
-			cause := driftClass(o.Drifted[d.Key])
+			cause := "latest revision before the op was the deployed one"
 			if last != "deployed" {
-				cause += ", last revision before the op was " + last
+				cause = "latest revision before the op was not the deployed one"
 			}
 			if pol == "keep" {
 				kept++
@@ -359,7 +382,7 @@ func judgeApply(res *core.Result, o *gen.StepObs, detail func() string, verbose 
 	// (3) bystanders
 	bystanders(res, o, opClass(op), detail)
 	cr, ch, del := mutationCounts(o, nil)
-	res.Key("%s%s|last=%s|created=%d changed=%d deleted=%d kept=%d|%s", opClass(op), flags(op), last, cr, ch, del, kept, driftClass(o.DriftsNow))
+	res.Key("%s%s|last=%s|created=%d changed=%d deleted=%d kept=%d|%s", opClass(op), flags(op), last, cr, ch, del, kept, driftShape(o.DriftsNow))
 }
 
 func flags(op env.Op) string {
@@ -459,5 +482,5 @@ func judgeUninstall(res *core.Result, o *gen.StepObs, detail func() string, verb
 		}
 	}
 	_, _, del := mutationCounts(o, nil)
-	res.Key("%s%s|last=%s|deleted=%d kept=%d expected-gone=%d|%s", "uninstall", flags(o.Step.Op), top.Status, del, nKeep, nGone, driftClass(o.DriftsNow))
+	res.Key("%s%s|last=%s|deleted=%d kept=%d expected-gone=%d|%s", "uninstall", flags(o.Step.Op), top.Status, del, nKeep, nGone, driftShape(o.DriftsNow))
 }
